@@ -123,7 +123,7 @@ func build(n *node) error {
 }
 
 // modelErrOp: the driver op that models ElideError as the code under test is expected to be.
-const modelErrOp = "errprefix"
+const modelErrOp = "err"
 
 func hx(s string) string { return vlib.Hex([]byte(s)) }
 
